@@ -1,3 +1,166 @@
-//! Client part of C10 (placeholder until the E3 core lands).
+//! Client part of C10: a client configured to use fingerprints appends a valid FINGERPRINT as the last attribute of
+//! everything it sends and never delivers, nor lets complete a transaction, a message whose FINGERPRINT is
+//! missing or wrong.
+
+use super::explore::{self, bfs, Event, Monitor, Step, Target, TimeDetail};
+use super::server::{Chal, NonceKind, PasKind, RClass, RFp, RMac, Reply};
+use super::world::{CallRes, Cfg, Mech, OEv, Transport, World};
+use crate::refs::codec::{self, ref_parse, L};
 use crate::util::{Report, RunCtx};
-pub fn run(_ctx: &RunCtx, _rep: &mut Report) {}
+use rayon::prelude::*;
+use serde_json::json;
+use std::sync::Arc;
+
+fn base_replies(cfg: &Cfg) -> Vec<Reply> {
+    let ok = Reply::plain(RClass::Success);
+    let err = Reply::plain(RClass::Error(400));
+    match cfg.mech {
+        Mech::None => vec![ok, err],
+        Mech::ShortTerm(Some(true)) => vec![ok.with_mac(RMac::Sha)],
+        Mech::ShortTerm(_) => vec![ok.with_mac(RMac::Mi), err.with_mac(RMac::Mi)],
+        Mech::LongTerm => vec![
+            Reply::plain(RClass::Error(401)).with_chal(Chal { realm: true, nonce: NonceKind::Plain(1), pas: PasKind::Absent }),
+            ok.with_mac(RMac::Mi),
+        ],
+    }
+}
+
+fn fp_name(f: RFp) -> &'static str {
+    match f {
+        RFp::Valid => "valid",
+        RFp::Bad => "one-bit-wrong",
+        RFp::Absent => "absent",
+        RFp::MisplacedWrongLen => "misplaced",
+    }
+}
+
+#[derive(Clone)]
+struct Mon {
+    finals_before: Vec<usize>,
+}
+
+impl Monitor for Mon {
+    fn fresh(&self) -> Box<dyn Monitor> {
+        Box::new(Mon { finals_before: vec![] })
+    }
+    fn on_step(&mut self, w: &World, st: &Step, rep: Option<(&mut Report, &[Event])>) {
+        let finals_before = std::mem::replace(&mut self.finals_before, w.reqs.iter().map(|r| r.finals.len()).collect());
+        let Some((rep, hist)) = rep else { return };
+        let replay = || json!({"kind": "history", "config": w.cfg.show(), "events": explore::show_history(hist), "observed": super::world::show_events(&st.obs.events)});
+        if let CallRes::Panic(p) = &st.obs.res {
+            rep.violate(format!("client/client-panics/{}", crate::util::panic_site(p)), p.clone(), replay());
+            return;
+        }
+        for e in &st.obs.events {
+            if let OEv::Out { bytes, .. } = e {
+                match ref_parse(bytes) {
+                    Ok(p) => match p.tlvs.last() {
+                        Some(t) if t.ty == codec::T_FP && codec::fp_ok(bytes, t) => rep.sym("client-packet-ends-in-valid-fingerprint"),
+                        Some(t) if t.ty == codec::T_FP => rep.violate("client/outgoing-fingerprint-wrong-crc", "", replay()),
+                        _ => rep.violate("client/outgoing-packet-without-final-fingerprint", format!("{:04x?}", p.tlvs.iter().map(|t| t.ty).collect::<Vec<_>>()), replay()),
+                    },
+                    Err(e) => rep.violate("client/outgoing-packet-unparseable", e, replay()),
+                }
+            }
+        }
+        if let Event::Deliver { to, reply } = st.ev {
+            let delivered = st.obs.events.iter().any(|e| matches!(e, OEv::Recv { .. }));
+            let new_final = w.reqs.iter().enumerate().any(|(i, r)| r.finals.len() > finals_before.get(i).copied().unwrap_or(0));
+            let what = if reply.class == RClass::Indication { "indication" } else { "response" };
+            if reply.fp != RFp::Valid {
+                if delivered {
+                    rep.violate(format!("client/message-with-{}-fingerprint-delivered/{}", fp_name(reply.fp), what), "", replay());
+                } else if new_final {
+                    rep.violate(format!("client/message-with-{}-fingerprint-completes-transaction/{}", fp_name(reply.fp), what), format!("{:?}", super::world::show_events(&st.obs.events)), replay());
+                } else if !matches!(st.obs.res, CallRes::RecvErr(_)) {
+                    rep.violate(format!("client/message-with-{}-fingerprint-not-refused/{}", fp_name(reply.fp), what), format!("{:?}", st.obs.res), replay());
+                } else {
+                    rep.sym("client-rejected-bad-or-missing-fingerprint");
+                    rep.sym(fp_name(reply.fp));
+                }
+            } else if let Target::Req(i) = to {
+                // a good reply still completes the request (it stayed outstanding through the rejected ones)
+                let awaiting_before = finals_before.get(*i).copied().unwrap_or(1) == 0;
+                // (long-term: only the 401 challenge is acceptable in every state)
+                let judge = !matches!(w.cfg.mech, Mech::LongTerm) || reply.class == RClass::Error(401);
+                if awaiting_before && reply.class != RClass::Indication && judge {
+                    if !new_final {
+                        rep.violate("client/good-reply-with-valid-fingerprint-does-not-complete", format!("{:?}", st.obs.res), replay());
+                    } else {
+                        rep.sym("client-completed-by-good-reply");
+                    }
+                }
+            }
+        }
+    }
+    fn key(&self, w: &World) -> String {
+        format!("{}|{}", w.reqs.len(), w.inds.len())
+    }
+    fn enabled(&self, w: &World) -> Vec<Event> {
+        let mut v = vec![];
+        if w.reqs.len() < 3 && w.awaiting().len() < 2 {
+            v.push(Event::Send { app: 0 });
+        }
+        if w.inds.is_empty() && !matches!(w.cfg.mech, Mech::LongTerm) {
+            v.push(Event::Indicate { app: 0 });
+        }
+        if !w.awaiting().is_empty() {
+            v.push(Event::Timer);
+            for t in explore::time_reps(w, TimeDetail::Coarse) {
+                v.push(Event::AdvanceTo(t));
+            }
+        }
+        for i in w.awaiting() {
+            for r in base_replies(&w.cfg) {
+                for f in [RFp::Valid, RFp::Bad, RFp::Absent, RFp::MisplacedWrongLen] {
+                    v.push(Event::Deliver { to: Target::Req(i), reply: r.with_fp(f) });
+                }
+            }
+        }
+        if !w.reqs.is_empty() {
+            let mac = match w.cfg.mech {
+                Mech::ShortTerm(Some(true)) => RMac::Sha,
+                Mech::ShortTerm(_) => RMac::Mi,
+                _ => RMac::None,
+            };
+            for f in [RFp::Valid, RFp::Bad, RFp::Absent, RFp::MisplacedWrongLen] {
+                v.push(Event::Deliver { to: Target::Unknown, reply: Reply::plain(RClass::Indication).with_mac(mac).with_fp(f) });
+            }
+        }
+        v
+    }
+}
+
+pub fn run(ctx: &RunCtx, rep: &mut Report) {
+    let thorough = ctx.thorough();
+    let apps: Arc<Vec<Vec<L>>> = Arc::new(vec![vec![], vec![L::Software("x".into()), L::Fp]]);
+    let mut cfgs = vec![];
+    for t in [Transport::Unreliable { rto_ms: 100, gran_ms: 1, rm: 2, rc: 2 }, Transport::Reliable { timeout_ms: 300 }] {
+        for m in [Mech::None, Mech::ShortTerm(None), Mech::ShortTerm(Some(true)), Mech::LongTerm] {
+            cfgs.push(Cfg { transport: t, mech: m, fingerprint: true, max_tx: 10 });
+        }
+    }
+    let depth = if thorough { 8 } else { 6 };
+    let results: Vec<(Report, serde_json::Value)> = cfgs
+        .par_iter()
+        .map(|cfg| {
+            let mut r = Report::new();
+            let st = bfs(cfg, &apps, &Mon { finals_before: vec![] }, depth, if thorough { 3_000_000 } else { 500_000 }, &mut r);
+            (r, json!({"config": cfg.show(), "depth": st.depth_completed, "states": st.states, "transitions": st.transitions}))
+        })
+        .collect();
+    let mut per = vec![];
+    let (mut states, mut transitions) = (0u64, 0u64);
+    for (r, j) in results {
+        states += j["states"].as_u64().unwrap_or(0);
+        transitions += j["transitions"].as_u64().unwrap_or(0);
+        per.push(j);
+        rep.merge(r);
+    }
+    rep.evaluations += transitions;
+    rep.extra.insert(
+        "client".into(),
+        json!({"engine": "E3 breadth-first exploration of fingerprint-enforcing clients (none / short-term / long-term x both transports)", "depth": depth, "states": states, "transitions": transitions, "per_config": per,
+               "alphabet": "Send, Indicate, Timer, AdvanceTo, Deliver(each awaiting request x accepted reply kinds of the mechanism x FINGERPRINT {valid, one bit wrong, absent, misplaced before the last attribute with the CRC over the unadjusted length}), Deliver(indication x the 4 FINGERPRINT kinds)"}),
+    );
+}
